@@ -111,7 +111,7 @@ def judge_stream(data, opts, pipe=False):
 
     ts = S.pipe_stream(data) if pipe else S.TrackingStream(data)
     errs = []
-    handler = errs.append if (opts.get("quitonerror") == 1 and opts.get("handler", True)) else None
+    handler = S.handler_returning(len(data), errs) if (opts.get("quitonerror") == 1 and opts.get("handler", True)) else None
     core.log_off()
     try:
         try:
@@ -195,7 +195,7 @@ def check(case) -> core.Out:
         try:
             try:
                 items, exc = S.read_all(sock, dict(opts, bufsize=case["bufsize"]),
-                                        (lambda e: None) if opts.get("quitonerror") == 1 else None,
+                                        S.handler_returning(len(data)) if opts.get("quitonerror") == 1 else None,
                                         limit=4 * len(data) + 50)
                 if exc is not None and not (opts.get("quitonerror") == 2 and S.is_protocol_error(exc)):
                     viol.append((f"{PROP}|read|{type(exc).__name__}|{where(exc)}",
